@@ -335,11 +335,25 @@ pub fn run_check_with_context(opts: &CheckOptions<'_>) -> crate::Result<i32> {
     }
 
     // 7.0.1 Check baseline ratchet (violations should only decrease)
+    // Paths this run evaluated: every path that produced a result, plus every scanned directory.
+    let mut evaluated: std::collections::HashSet<String> = results
+        .iter()
+        .map(|r| r.path().to_string_lossy().replace('\\', "/"))
+        .collect();
+    if !skip_structure_checks && let Some(ref scan_result) = scan_result {
+        evaluated.extend(
+            scan_result
+                .dir_stats
+                .keys()
+                .map(|d| d.to_string_lossy().replace('\\', "/")),
+        );
+    }
     let ratchet_failed = handle_baseline_ratchet(
         args,
         config,
         &results,
         &mut baseline_for_ratchet,
+        &evaluated,
         project_root,
         cli.quiet,
     )?;
